@@ -16,6 +16,13 @@ EmitEdge == (Len(hist') <= EmitDepth) => PrintT("@@B " \o ToJson(hist'))
 EmitFull == (Len(hist') = Depth) => PrintT("@@B " \o ToJson(hist'))
 \* only behaviours that contain a permuted group are worth replaying as twins
 EmitTwinEdge == (groups' > 0 /\ Len(hist') <= EmitDepth) => PrintT("@@B " \o ToJson(hist'))
+SimNext == IF Len(hist) = Depth - 1 THEN Lock([a |-> "CheckFork"])
+           ELSE /\ Len(hist) < Depth - 1
+                /\ \E coin \in {RandomElement(1..3)} :
+                   \E act \in {RandomElement(IF coin = 1 /\ groups < MaxGroups /\ GroupActs(sA) # {}
+                                               THEN GroupActs(sA) ELSE One!Acts(sA))} :      \* bound once
+                      IF act.a = "Group" THEN Group(act) ELSE Lock(act)
+SimSpec == Init /\ [][SimNext]_vars
 EmitTwinFull == (Len(hist') = Depth /\ groups' > 0) => PrintT("@@B " \o ToJson(hist'))
 
 \* exhaustive checking within a depth bound (history kept only as a length counter)
